@@ -139,6 +139,12 @@ EXTRA4 = {
 }
 for k, v in EXTRA4.items():
     CHECKS[k]['text'] += v
+EXTRA5 = {
+ 'C06': " The clock handed to the interceptor (ReceiverNow) is the virtual time plus a skew that two symbols step backwards; arrival and report instants of the reference are readings of that clock (a negative delay since the last sender report is not judged).",
+ 'C10': " After the only stream of the NACK generator was unbound concurrently with the reporting tick, the retained size must equal that of an instance that never had a stream; a stream re-bound as another one while the old writer is still writing must not inherit its counters (sender reports).",
+}
+for k, v in EXTRA5.items():
+    CHECKS[k]['text'] += v
 checks = []
 for pid in sorted(CHECKS):
     c = CHECKS[pid]
